@@ -8,6 +8,7 @@ package vos
 
 import (
 	"errors"
+	"io"
 	"io/fs"
 	"os"
 	"time"
@@ -555,6 +556,24 @@ func (f *File) Truncate(size int64) error {
 func (f *File) ReadAt(b []byte, off int64) (int, error) {
 	if f == nil || f.File == nil {
 		return 0, os.ErrInvalid
+	}
+	if s := Active; s != nil && s.HookReads {
+		// fault-injection runs: reads of table files are operations that can fail
+		op := enter("readat", f.name(), "", 2)
+		if op.denied() {
+			return 0, ErrKilled
+		}
+		if e := op.Faulted(); e != nil {
+			leave(op, e)
+			return 0, e
+		}
+		n, err := f.File.ReadAt(b, off)
+		if err == io.EOF {
+			leave(op, nil)
+		} else {
+			leave(op, err)
+		}
+		return n, err
 	}
 	return f.File.ReadAt(b, off)
 }
